@@ -192,6 +192,7 @@ def evaluate(arg):
         try:
             import sweetpea as sp
             fa, fr, n_seq, n_valid = [], [], 0, 0
+            valid_keep = []
             lim = opts.get("mismatch_limit", 20000)
             for seq in model.enumerate_sequences(d, geo, opts.get("space_limit", 150_000)):
                 n_seq += 1
@@ -199,6 +200,8 @@ def evaluate(arg):
                     break
                 c = model.classify(d, seq, geo)
                 n_valid += c == model.VALID
+                if c == model.VALID and len(valid_keep) < opts.get("perturb_from", 12):
+                    valid_keep.append({f: list(v) for f, v in seq.items()})
                 try:
                     mm = runner.quiet(sp.sample_mismatch_experiment, block, {f: list(seq[f]) for f in names})
                 except Exception as e:
@@ -213,8 +216,45 @@ def evaluate(arg):
                 if c == model.VALID and mm:
                     out.setdefault("mismatch", {}).setdefault("n_false_reject", 0)
                     out["mismatch"]["n_false_reject"] += 1
+            # The enumeration above fills derived levels in by their definition and keeps sustained factors constant inside a group, so it never
+            # contains a wrong derived label or a broken group.  Single-trial perturbations of valid sequences add those: every factor (basic or
+            # derived), every trial that has a level, every other level name; the perturbed sequence is judged by the reference reading.
+            n_pert = 0
+            if valid_keep:
+                fm_ = model.factor_map(d)
+                for seq in valid_keep:
+                    for f in names:
+                        if f not in seq:
+                            continue
+                        # (no '' alternative: C17 speaks of candidates that give every factor a level name wherever the factor applies)
+                        alts = sorted(set(model.level_names(fm_[f])), key=str)
+                        for t in range(len(seq[f])):
+                            for a in alts:
+                                if a == seq[f][t] or seq[f][t] == "" or n_pert >= opts.get("perturbation_limit", 1500):
+                                    continue
+                                s2 = {g_: list(v) for g_, v in seq.items()}
+                                s2[f][t] = a
+                                try:
+                                    c2 = model.classify(d, s2, geo)
+                                except model.Unsupported:
+                                    continue
+                                n_pert += 1
+                                try:
+                                    mm2 = runner.quiet(sp.sample_mismatch_experiment, block, {g_: list(s2[g_]) for g_ in names})
+                                except Exception as e:
+                                    mm2 = {"exception": [type(e).__name__, str(e)[:200]]}
+                                if c2 == model.INVALID and not mm2:
+                                    out.setdefault("mismatch", {}).setdefault("n_false_accept", 0)
+                                    out["mismatch"]["n_false_accept"] += 1
+                                    if len(fa) < 3:
+                                        fa.append({g_: list(s2[g_]) for g_ in names})
+                                if c2 == model.VALID and mm2:
+                                    out.setdefault("mismatch", {}).setdefault("n_false_reject", 0)
+                                    out["mismatch"]["n_false_reject"] += 1
+                                    if len(fr) < 3:
+                                        fr.append([{g_: list(s2[g_]) for g_ in names}, {k_: str(v)[:200] for k_, v in mm2.items()}])
             mmr = out.setdefault("mismatch", {})
-            mmr.update(n_seq=min(n_seq, lim), n_valid=n_valid, false_accept=fa, false_reject=fr, exhaustive=n_seq <= lim)
+            mmr.update(n_seq=min(n_seq, lim), n_valid=n_valid, false_accept=fa, false_reject=fr, exhaustive=n_seq <= lim, n_perturbed=n_pert)
         except model.Unsupported as e:
             out["mismatch"] = dict(unsupported=str(e))
         except Exception as e:
